@@ -11,6 +11,7 @@ so range, monotonicity, "zero iff unchanged" and the potential identity are prov
 -/
 import LnnVerif.Model.PropEngine
 import LnnVerif.Lemmas.Arith
+import Mathlib.Tactic.Tauto
 
 set_option linter.unusedSectionVars false
 
@@ -464,5 +465,144 @@ theorem runSteps_frame (kb : KB ι α) (steps : List (Step ι)) (s : State ι α
     simp only [runSteps]
     rw [ih _ (fun st' h' => h st' (List.mem_cons_of_mem _ h')),
       runStep_frame kb st s j (h st (List.mem_cons_self ..))]
+
+/-! ### classical regions, contradiction, state -/
+
+theorem region_def (a y : α) : region a y =
+    if a ≤ y then 5 else if 1/2 < y ∧ y < a then 4 else if y = 1/2 then 3
+    else if 1 - a < y ∧ y < 1/2 then 2 else if y ≤ 1 - a then 1 else 0 := rfl
+
+theorem region_cases (a y : α) :
+    (region a y = 1 ∧ y ≤ 1 - a) ∨ (region a y = 2 ∧ 1 - a < y ∧ y < 1/2) ∨
+    (region a y = 3 ∧ y = 1/2) ∨ (region a y = 4 ∧ 1/2 < y ∧ y < a) ∨ (region a y = 5 ∧ a ≤ y) := by
+  rw [region_def]
+  by_cases h5 : a ≤ y
+  · rw [if_pos h5]; exact Or.inr (Or.inr (Or.inr (Or.inr ⟨rfl, h5⟩)))
+  · rw [if_neg h5]
+    have h5' : y < a := not_le.mp h5
+    rcases lt_trichotomy y (1/2) with h | h | h
+    · rw [if_neg (fun h' => absurd h'.1 (not_lt.mpr h.le)), if_neg (ne_of_lt h)]
+      by_cases h1 : y ≤ 1 - a
+      · rw [if_neg (fun h' => absurd h'.1 (not_lt.mpr h1)), if_pos h1]
+        exact Or.inl ⟨rfl, h1⟩
+      · have h2 : 1 - a < y := not_le.mp h1
+        rw [if_pos ⟨h2, h⟩]
+        exact Or.inr (Or.inl ⟨rfl, h2, h⟩)
+    · rw [if_neg (fun h' => absurd h'.1 (by rw [h]; exact lt_irrefl _)), if_pos h]
+      exact Or.inr (Or.inr (Or.inl ⟨rfl, h⟩))
+    · rw [if_pos ⟨h, h5'⟩]
+      exact Or.inr (Or.inr (Or.inr (Or.inl ⟨rfl, h, h5'⟩)))
+
+local macro "region_iff" ha:ident y:ident : tactic =>
+  `(tactic| (rcases region_cases _ $y with ⟨h, c⟩ | ⟨h, c1, c2⟩ | ⟨h, c⟩ | ⟨h, c1, c2⟩ | ⟨h, c⟩ <;> rw [h] <;>
+    constructor <;> intro h' <;>
+    first | assumption | rfl | (exfalso; omega) | (exfalso; linarith [$ha:ident]) | (exfalso; linarith [$ha:ident, h'.1, h'.2]) | exact ⟨c1, c2⟩))
+
+theorem region_eq_one_iff {a : α} (ha : 1/2 < a) (y : α) : region a y = 1 ↔ y ≤ 1 - a := by
+  region_iff ha y
+theorem region_eq_two_iff {a : α} (ha : 1/2 < a) (y : α) : region a y = 2 ↔ 1 - a < y ∧ y < 1/2 := by
+  region_iff ha y
+theorem region_eq_three_iff {a : α} (ha : 1/2 < a) (y : α) : region a y = 3 ↔ y = 1/2 := by
+  region_iff ha y
+theorem region_eq_four_iff {a : α} (ha : 1/2 < a) (y : α) : region a y = 4 ↔ 1/2 < y ∧ y < a := by
+  region_iff ha y
+theorem region_eq_five_iff {a : α} (ha : 1/2 < a) (y : α) : region a y = 5 ↔ a ≤ y := by
+  region_iff ha y
+
+theorem region_lt_six (a y : α) : region a y < 6 := by
+  rcases region_cases a y with ⟨h, _⟩ | ⟨h, _⟩ | ⟨h, _⟩ | ⟨h, _⟩ | ⟨h, _⟩ <;> rw [h] <;> decide
+
+theorem region_range (a y : α) : 1 ≤ region a y ∧ region a y ≤ 5 := by
+  rcases region_cases a y with ⟨h, _⟩ | ⟨h, _⟩ | ⟨h, _⟩ | ⟨h, _⟩ | ⟨h, _⟩ <;> rw [h] <;> decide
+
+/-- regions are ordered like the values -/
+theorem region_lt_imp {a : α} (ha : 1/2 < a) {x y : α} (h : region a x < region a y) : x < y := by
+  rcases region_cases a x with ⟨hx, c⟩ | ⟨hx, c1, c2⟩ | ⟨hx, c⟩ | ⟨hx, c1, c2⟩ | ⟨hx, c⟩ <;>
+  rcases region_cases a y with ⟨hy, d⟩ | ⟨hy, d1, d2⟩ | ⟨hy, d⟩ | ⟨hy, d1, d2⟩ | ⟨hy, d⟩ <;>
+  rw [hx, hy] at h <;> first | (exfalso; omega) | linarith [ha]
+
+theorem isContra_iff_region (a : α) (b : Bounds α) :
+    isContra a b = true ↔ (b.lo > b.hi ∧ ¬ (region a b.lo = 1 ∧ region a b.hi = 1)
+      ∧ ¬ (region a b.lo = 5 ∧ region a b.hi = 5)) := by
+  unfold isContra
+  simp only [Bool.and_eq_true, decide_eq_true_eq, Bool.not_eq_true', Bool.and_eq_false_iff,
+    beq_eq_false_iff_ne, ne_eq]
+  tauto
+
+theorem isContra_iff {a : α} (ha : 1/2 < a) (b : Bounds α) :
+    isContra a b = true ↔ (b.lo > b.hi ∧ ¬ (b.lo ≤ 1 - a ∧ b.hi ≤ 1 - a) ∧ ¬ (a ≤ b.lo ∧ a ≤ b.hi)) := by
+  rw [isContra_iff_region, region_eq_one_iff ha, region_eq_one_iff ha, region_eq_five_iff ha,
+    region_eq_five_iff ha]
+
+theorem isContra_eq_false_iff {a : α} (ha : 1/2 < a) (b : Bounds α) :
+    isContra a b = false ↔ (b.lo ≤ b.hi ∨ (b.lo ≤ 1 - a ∧ b.hi ≤ 1 - a) ∨ (a ≤ b.lo ∧ a ≤ b.hi)) := by
+  rw [← Bool.not_eq_true, isContra_iff ha, gt_iff_lt, ← not_le]
+  tauto
+
+/-- the `np.where` cascade of `state` without the final contradiction override -/
+def stTable (l u : Nat) : St :=
+  let r := St.bad
+  let r := if l == 1 && u == 5 then St.U else r
+  let r := if l == 1 && u == 1 then St.F else r
+  let r := if l == 5 && u == 5 then St.T else r
+  let r := if l == 3 && u == 3 then St.eU else r
+  let r := if (l == 1 || l == 2) && u == 2 then St.aF else r
+  let r := if l == 4 && (u == 4 || u == 5) then St.aT else r
+  if (l == 1 && (u == 3 || u == 4)) || (l == 2 && (u == 3 || u == 4 || u == 5))
+              || (l == 3 && (u == 4 || u == 5)) then St.aU else r
+
+theorem state_def (a : α) (b : Bounds α) :
+    state a b = if isContra a b then St.C else stTable (region a b.lo) (region a b.hi) := rfl
+
+theorem stTable_ne_C (l u : Nat) : stTable l u ≠ St.C := by
+  unfold stTable
+  simp only
+  split_ifs <;> simp
+
+private theorem stTable_fin : ∀ l u : Fin 6,
+    (stTable l u = St.U ↔ (l.val = 1 ∧ u.val = 5)) ∧
+    (stTable l u = St.F ↔ (l.val = 1 ∧ u.val = 1)) ∧
+    (stTable l u = St.T ↔ (l.val = 5 ∧ u.val = 5)) ∧
+    (stTable l u = St.eU ↔ (l.val = 3 ∧ u.val = 3)) ∧
+    (stTable l u = St.aF ↔ ((l.val = 1 ∨ l.val = 2) ∧ u.val = 2)) ∧
+    (stTable l u = St.aT ↔ (l.val = 4 ∧ (u.val = 4 ∨ u.val = 5))) ∧
+    (stTable l u = St.aU ↔
+      ((l.val = 1 ∧ (u.val = 3 ∨ u.val = 4)) ∨ (l.val = 2 ∧ (u.val = 3 ∨ u.val = 4 ∨ u.val = 5))
+        ∨ (l.val = 3 ∧ (u.val = 4 ∨ u.val = 5)))) ∧
+    (stTable l u = St.bad ↔ (l.val = 0 ∨ u.val = 0 ∨ u.val < l.val)) := by decide
+
+section
+variable {l u : Nat} (hl : l < 6) (hu : u < 6)
+include hl hu
+theorem stTable_U : stTable l u = St.U ↔ (l = 1 ∧ u = 5) := (stTable_fin ⟨l, hl⟩ ⟨u, hu⟩).1
+theorem stTable_F : stTable l u = St.F ↔ (l = 1 ∧ u = 1) := (stTable_fin ⟨l, hl⟩ ⟨u, hu⟩).2.1
+theorem stTable_T : stTable l u = St.T ↔ (l = 5 ∧ u = 5) := (stTable_fin ⟨l, hl⟩ ⟨u, hu⟩).2.2.1
+theorem stTable_eU : stTable l u = St.eU ↔ (l = 3 ∧ u = 3) := (stTable_fin ⟨l, hl⟩ ⟨u, hu⟩).2.2.2.1
+theorem stTable_aF : stTable l u = St.aF ↔ ((l = 1 ∨ l = 2) ∧ u = 2) :=
+  (stTable_fin ⟨l, hl⟩ ⟨u, hu⟩).2.2.2.2.1
+theorem stTable_aT : stTable l u = St.aT ↔ (l = 4 ∧ (u = 4 ∨ u = 5)) :=
+  (stTable_fin ⟨l, hl⟩ ⟨u, hu⟩).2.2.2.2.2.1
+theorem stTable_aU : stTable l u = St.aU ↔
+    ((l = 1 ∧ (u = 3 ∨ u = 4)) ∨ (l = 2 ∧ (u = 3 ∨ u = 4 ∨ u = 5)) ∨ (l = 3 ∧ (u = 4 ∨ u = 5))) :=
+  (stTable_fin ⟨l, hl⟩ ⟨u, hu⟩).2.2.2.2.2.2.1
+theorem stTable_bad : stTable l u = St.bad ↔ (l = 0 ∨ u = 0 ∨ u < l) :=
+  (stTable_fin ⟨l, hl⟩ ⟨u, hu⟩).2.2.2.2.2.2.2
+end
+
+theorem state_eq_C_iff (a : α) (b : Bounds α) : state a b = St.C ↔ isContra a b = true := by
+  rw [state_def]
+  constructor
+  · intro h
+    by_contra hc
+    rw [if_neg hc] at h
+    exact stTable_ne_C _ _ h
+  · intro h; rw [if_pos h]
+
+theorem state_eq_iff_of_ne_C (a : α) (b : Bounds α) (x : St) (hx : x ≠ St.C) :
+    state a b = x ↔ (isContra a b = false ∧ stTable (region a b.lo) (region a b.hi) = x) := by
+  rw [state_def]
+  cases hc : isContra a b with
+  | true => simp [Ne.symm hx]
+  | false => simp
 
 end LNN
